@@ -48,10 +48,118 @@ Fixpoint history_ok (chan nr : Z) (ms : list message) (outs : list (list bytes))
   | _, _ => false
   end.
 
-(* ---- dispatch.  fn 1: input (chan nr0 ((ps typ ((chunk ...) ...)) ...)) ; output ((write ...) ...) per message *)
+(* ------------------------------------------------------------------ interrupted sends (fn 2)
+   A call of QueuePackage / SendPackage / SendRemainingPackets may be given a context that is done or gets
+   cancelled while packets are written; it then returns an error.  What C01 says about such histories:
+   - every message whose flush SUCCEEDED: all transport writes since the end of the previous message, in order,
+     are one well-formed message (tx_ok) carrying the encodings of ALL packages queued since then, failed
+     QueuePackage calls included (a failed QueuePackage keeps its package queued), each byte once;
+   - at every point inside a message the writes so far are a proper prefix of that packetisation: full
+     packets without EOM whose bodies are a prefix of what was queued so far, with at least one byte still
+     unsent (tx_prefix_ok) - so the last packet never leaves early, nothing is sent twice;
+   - SendRemainingPackets that FAILED abandons the message (the code resets the channel's queue in a deferred
+     call): what was written is such a proper prefix, nothing stays queued, and the next message is
+     well-formed on its own payload (it contains nothing of the abandoned one);
+   - SendPackage that failed: either its QueuePackage half failed (packets stay queued: the message goes on)
+     or its flush half failed (nothing stays queued: abandoned); the observable "packets stay queued" tells which;
+   - a call with a live context never fails; after a flush nothing stays queued; after QueuePackage packets
+     stay queued iff the message has at least one byte.
+   Packet numbers on channels > 0 continue over abandoned messages (every packet written counts). *)
+Fixpoint tx_prefix_ok (ps typ chan nr : Z) (payload : bytes) (outs : list bytes) : bool :=
+  match outs with
+  | [] => true
+  | w :: rest =>
+    match parse_packet w with
+    | None => false
+    | Some (t, s, len, c, n, wi, body) =>
+        header_ok ps typ chan nr t s len c n wi body false &&
+        (zlen body =? ps - 8) && (ps - 8 <? zlen payload) && list_Z_eqb body (ztake (ps - 8) payload) &&
+        tx_prefix_ok ps typ chan (nr + 1) (zdrop (ps - 8) payload) rest
+    end
+  end.
+
+Record sstate := { a_w : list bytes; a_p : bytes; a_nr : Z }.
+
+Definition is_nil {A} (l : list A) : bool := match l with [] => true | _ => false end.
+Definition live (b : option nat) : bool := match b with None => true | Some _ => false end.
+Definition nr_after (chan nr : Z) (ws : list bytes) : Z := if 0 <? chan then (nr + zlen ws) mod 256 else nr.
+
+(* the message goes on *)
+Definition s_continue (ps typ chan : Z) (ws : list bytes) (p : bytes) (pend : bool) (s : sstate) : option sstate :=
+  if tx_prefix_ok ps typ chan (a_nr s) p ws && Bool.eqb pend (negb (is_nil p))
+  then Some {| a_w := ws; a_p := p; a_nr := a_nr s |} else None.
+(* the message is complete *)
+Definition s_complete (ps typ chan : Z) (ws : list bytes) (p : bytes) (pend : bool) (s : sstate) : option sstate :=
+  if (if is_nil p then is_nil ws else tx_ok ps typ chan (a_nr s) p ws) && negb pend
+  then Some {| a_w := []; a_p := []; a_nr := nr_after chan (a_nr s) ws |} else None.
+(* the message is abandoned *)
+Definition s_abandon (ps typ chan : Z) (ws : list bytes) (p : bytes) (pend : bool) (s : sstate) : option sstate :=
+  if tx_prefix_ok ps typ chan (a_nr s) p ws && negb pend
+  then Some {| a_w := []; a_p := []; a_nr := nr_after chan (a_nr s) ws |} else None.
+
+Definition call_ok (ps typ chan : Z) (c : call) (o : obs_call) (s : sstate) : option sstate :=
+  let '(w, err, pend) := o in
+  let ws := a_w s ++ w in
+  match c with
+  | CQueue chunks b =>
+      if err && live b then None else s_continue ps typ chan ws (a_p s ++ concat chunks) pend s
+  | CFlush b =>
+      if err && live b then None else
+      if err then s_abandon ps typ chan ws (a_p s) pend s else s_complete ps typ chan ws (a_p s) pend s
+  | CSendPkg chunks b =>
+      let p := a_p s ++ concat chunks in
+      if err && live b then None else
+      if err then (if pend then s_continue ps typ chan ws p pend s else s_abandon ps typ chan ws p pend s)
+      else s_complete ps typ chan ws p pend s
+  end.
+
+Fixpoint calls_ok (ps typ chan : Z) (cs : list call) (os : list obs_call) (s : sstate) : option sstate :=
+  match cs, os with
+  | [], [] => Some s
+  | c :: cr, o :: orest =>
+      match call_ok ps typ chan c o s with
+      | Some s1 => calls_ok ps typ chan cr orest s1
+      | None => None
+      end
+  | _, _ => None
+  end.
+
+(* every segment ends with its message completed or abandoned: nothing half-sent at the border *)
+Fixpoint segments_ok (chan : Z) (gs : list segment) (os : list (list obs_call)) (s : sstate) : bool :=
+  match gs, os with
+  | [], [] => true
+  | g :: gr, o :: orest =>
+      match calls_ok (g_ps g) (g_typ g) chan (g_calls g) o s with
+      | Some s1 => is_nil (a_w s1) && is_nil (a_p s1) && segments_ok chan gr orest s1
+      | None => false
+      end
+  | _, _ => false
+  end.
+
+(* ---- dispatch.
+   fn 1: input (chan nr0 ((ps typ ((chunk ...) ...)) ...)) ; output ((write ...) ...) per message
+   fn 2: input (chan nr0 ((ps typ ((kind budget (chunk ...)) ...)) ...)), kind 0 QueuePackage, 1 SendPackage,
+         2 SendRemainingPackets; budget -1 live context, k >= 0 context cancelled after k packet writes of the call;
+         output per segment, per call: ((write ...) err pending) *)
 Definition msg_of_tree (t : tree) : message :=
   {| m_ps := t_int (t_nth 0 t); m_typ := t_int (t_nth 1 t);
      m_pkgs := map (fun p => map t_bytes (t_list p)) (t_list (t_nth 2 t)) |}.
+
+Definition budget_of (z : Z) : option nat := if z <? 0 then None else Some (Z.to_nat z).
+Definition call_of_tree (t : tree) : call :=
+  let b := budget_of (t_int (t_nth 1 t)) in
+  let chunks := map t_bytes (t_list (t_nth 2 t)) in
+  match t_int (t_nth 0 t) with
+  | 0 => CQueue chunks b
+  | 1 => CSendPkg chunks b
+  | _ => CFlush b
+  end.
+Definition seg_of_tree (t : tree) : segment :=
+  {| g_ps := t_int (t_nth 0 t); g_typ := t_int (t_nth 1 t); g_calls := map call_of_tree (t_list (t_nth 2 t)) |}.
+Definition obs_tree (o : obs_call) : tree :=
+  let '(w, err, pend) := o in TL [TL (map TB w); of_bool err; of_bool pend].
+Definition obs_of_tree (t : tree) : obs_call :=
+  (map t_bytes (t_list (t_nth 0 t)), negb (t_int (t_nth 1 t) =? 0), negb (t_int (t_nth 2 t) =? 0)).
 
 Definition run (fn : Z) (i : tree) : tree :=
   match fn with
@@ -61,6 +169,14 @@ Definition run (fn : Z) (i : tree) : tree :=
     let ms := map msg_of_tree (t_list (t_nth 2 i)) in
     match send_history chan ms {| tq := empty_pq; tnr := nr0 |} with
     | Some (outs, _) => TL (map (fun o => TL (map TB o)) outs)
+    | None => TL [TI (-1)]
+    end
+  | 2 =>
+    let chan := t_int (t_nth 0 i) in
+    let nr0 := t_int (t_nth 1 i) in
+    let gs := map seg_of_tree (t_list (t_nth 2 i)) in
+    match run_segments chan gs {| tq := empty_pq; tnr := nr0 |} with
+    | Some (outs, _) => TL (map (fun o => TL (map obs_tree o)) outs)
     | None => TL [TI (-1)]
     end
   | _ => tbad
@@ -73,5 +189,10 @@ Definition spec (fn : Z) (i o : tree) : bool :=
     let nr0 := t_int (t_nth 1 i) in
     let ms := map msg_of_tree (t_list (t_nth 2 i)) in
     history_ok chan nr0 ms (map (fun x => map t_bytes (t_list x)) (t_list o))
+  | 2 =>
+    let chan := t_int (t_nth 0 i) in
+    let nr0 := t_int (t_nth 1 i) in
+    let gs := map seg_of_tree (t_list (t_nth 2 i)) in
+    segments_ok chan gs (map (fun x => map obs_of_tree (t_list x)) (t_list o)) {| a_w := []; a_p := []; a_nr := nr0 |}
   | _ => false
   end.
